@@ -19,6 +19,7 @@ MC_Tags == {1}
 MC_UserParams == << [g |-> gG1, p |-> [n |-> nA, d |-> <<100>>, l |-> 0, sets |-> <<[t |-> TCHAR, v |-> <<<<120, 121>>, <<122>>>>, dim |-> <<>>, scalar |-> 0]>>]] >>
 MC_LockNames == {}
 MC_CallerIds == {}
+MC_Files == <<>>
 Dump == PrintT(ToJson([path |-> hist, op |-> lastOp', out |-> lastOut', res |-> lastRes',
                        post |-> [hdr |-> AbsHdr(obj'.hdr), frm |-> obj'.frm]]))
 =========================================================================
